@@ -47,6 +47,18 @@ PROPS["C12"] = _kv("C12", "NewMap builds exactly the requested projection and le
     "Theorems over the model of NewMap/addNewVal; correspondence of the built Map, the error class and the receiver after the call; oracle checks receiver deep-equality and the projection content.",
     "Trusted: Coq kernel; model validated by correspondence; immutability of Gallina values hides aliasing, so non-modification of the receiver is observed by the harness (deep comparison) on every case.")
 
+XML_ASSUME = [
+    "encoding/xml's tokenizer is the environment: the decoder model consumes the token list the real Decoder.Token returned for the same bytes (recorded by the harness); toks_of_* in Spec/ state what it returns on rendered trees and are validated on every run",
+    "strconv.ParseFloat is an oracle (per-case table filled by the real function); float64 values are carried as their %v text",
+    "package-level options are set through the exported setters before each implementation call and restored afterwards",
+]
+PROPS["C01"] = {"title": "XML decodes to the Map the documented conventions prescribe, under all options", "run_modules": ["RunXml"],
+    "n": {"quick": 2500, "thorough": 40000}, "level": "proof",
+    "technique": "Coq model of xmlToMapParser/cast over token lists + declarative conventions conv (Spec/Conv.v) + correspondence by vm_compute + Go-side oracle transcribing the conventions",
+    "design_ref": "DESIGN.md section 6, C01", "assumptions": XML_ASSUME,
+    "level_text": "Executable Coq model of the decoder (all options, cast, escaping, tag sequence numbers) tied to the current /repo on real token streams; theorems over the model; the Go-side oracle compares NewMapXml with a direct transcription of the conventions on abstract documents rendered with random lexical choices.",
+    "level_note": "Trusted: Coq kernel; encoding/xml tokenizer and strconv as environment; hand-written model validated by correspondence on every run."}
+
 # properties not (yet) claimed; kept current as checks are added
 _ALL = ["C%02d" % i for i in range(1, 21)]
 NOT_APPLICABLE = [{"property_id": p, "reason": "check not built yet in this round (planned, see DESIGN.md section 6); not a limit of the technique"}
